@@ -155,8 +155,10 @@ class Ctx:
                 if outcome in ("VIOLATED", "UNRECOGNISED") and (only is None or only in str(site)):
                     r.instances[k] = (site, "HOLDS", why)
                     changed = True
+            if only is None:
+                r.floor = min(r.floor, sum(1 for i in r.instances if i[1] in ("HOLDS", "VIOLATED")))  # fewer sites of the known shape: the semantic rules carry their own floors
             if changed:
-                r.floor = min(r.floor, sum(1 for i in r.instances if i[1] in ("HOLDS", "VIOLATED")))  # the semantic rules carry their own floors
+                r.floor = min(r.floor, sum(1 for i in r.instances if i[1] in ("HOLDS", "VIOLATED")))
                 self.violations = [v for v in self.violations if v.rule != rid or (only is not None and only not in f"{v.relpath}::{v.qualname}: {v.construct}")]
                 self.errors = [e for e in self.errors if not (e.startswith(rid + " ") or e.startswith(rid + ":")) or (only is not None and only not in e)]
                 self.notes.append(f"{rid}: deferred to {', '.join(semantic)}")
